@@ -447,12 +447,21 @@ def run(ctx):
         for kind, why in probs:
             ctx.fail(kind, f'ja.apply_binary_rules({str(x)!r}, {str(y)!r}): {why}', {'x': str(x), 'y': str(y), 'stream': stream})
 
+    def used_table(pool, cats, idx_pairs):
+        """a table holding only the categories the given index pairs use; returns old index -> table position"""
+        used = sorted({i for p in idx_pairs for i in p})
+        pos = {i: k for k, i in enumerate(used)}
+        pool.table([cats[i] for i in used])
+        return pos
+
     def bin_case(pool, xt, yt, out, seen='None'):
         return f'BinJa {xt} {yt} {seen} {pool.result(out)}'
 
     # ---- 1. the shipped inventory: every ordered pair is evaluated and checked by the oracle --------------------
     inv = [Category.parse(s) for s in gen.inventory('ja')]
     allp = [(i, j) for i in range(len(inv)) for j in range(len(inv))]
+    if quick:
+        allp = rng.sample(allp, 70000)
     res = run_pairs(inv, allp)
     firing = [k for k, (o, _) in enumerate(res) if o[0] != 'ok' or o[1]]
     for (i, j), (o, probs) in zip(allp, res):
@@ -461,7 +470,7 @@ def run(ctx):
     ctx.stats['inventory_firing_pairs'] = len(firing)
     if quick:
         fs = set(firing)
-        sel = rng.sample(firing, min(len(firing), 1500)) + rng.sample([k for k in range(len(allp)) if k not in fs], 900)
+        sel = rng.sample(firing, min(len(firing), 1200)) + rng.sample([k for k in range(len(allp)) if k not in fs], 600)
     else:
         sel = list(range(len(allp)))
     pool = Pool()
@@ -470,6 +479,32 @@ def run(ctx):
     ctx.coq_cases('binary_inventory', pool.preamble(), cases, chunk=300 if quick else 3000,
                   describe=lambda i: (str(inv[allp[sel[i]][0]]), str(inv[allp[sel[i]][1]]), gram_corr.sig(res[sel[i]][0])))
     ctx.sample({'binary': (str(inv[allp[firing[0]][0]]), str(inv[allp[firing[0]][1]]), gram_corr.sig(res[firing[0]][0]))} if firing else {})
+
+    # ---- 1b. categories reachable by rule application: results of the inventory pairs, combined with the inventory again ----
+    reach, rseen = [], {str(c) for c in inv}
+    for o, _ in res:
+        if o[0] == 'ok':
+            for r in o[1]:
+                if str(r.cat) not in rseen:
+                    rseen.add(str(r.cat))
+                    reach.append(r.cat)
+    ctx.stats['reachable_new_categories'] = len(reach)
+    rc = inv + reach
+    nreach = 15000 if quick else 400000
+    rp = []
+    for _ in range(nreach):
+        i, j = len(inv) + rng.randrange(len(reach)), rng.randrange(len(rc))
+        rp.append((i, j) if rng.random() < 0.5 else (j, i))
+    resr = run_pairs(rc, rp)
+    for (i, j), (o, probs) in zip(rp, resr):
+        record(rc[i], rc[j], o, probs, 'reachable')
+    firer = [k for k, (o, _) in enumerate(resr) if o[0] != 'ok' or o[1]]
+    selr = rng.sample(firer, min(len(firer), 500 if quick else 30000)) + rng.sample(range(len(rp)), 100 if quick else 5000)
+    pool = Pool()
+    pos = used_table(pool, rc, [rp[k] for k in selr])
+    cases = [bin_case(pool, f'(g_tbl {pos[rp[k][0]]})', f'(g_tbl {pos[rp[k][1]]})', resr[k][0]) for k in selr]
+    ctx.coq_cases('binary_reachable', pool.preamble(), cases, chunk=300 if quick else 2000,
+                  describe=lambda i: (str(rc[rp[selr[i]][0]]), str(rc[rp[selr[i]][1]]), gram_corr.sig(resr[selr[i]][0])))
 
     # ---- 2. the categories of seen_rules.ja: the listed pairs, random pairs, and the seen-rule gate (C14) ---------
     seen_pairs = [(Category.parse(a), Category.parse(b)) for a, b in gen.model_file('seen_rules.ja.jsonnet')]
@@ -480,7 +515,7 @@ def run(ctx):
                 sidx[str(c)] = len(scats)
                 scats.append(c)
     listed = [(sidx[str(a)], sidx[str(b)]) for a, b in seen_pairs]
-    nrand = 20000 if quick else 400000
+    nrand = 10000 if quick else 400000
     randp = [(rng.randrange(len(scats)), rng.randrange(len(scats))) for _ in range(nrand)]
     sp = listed + randp
     res2 = run_pairs(scats, sp)
@@ -525,7 +560,7 @@ def run(ctx):
         by_skel[skel(c)].append(k)
     funs = [k for k, c in enumerate(syn) if is_fun(c)]
     pairs3 = []
-    n3 = 30000 if quick else 600000
+    n3 = 20000 if quick else 600000
     for _ in range(n3):
         u = rng.random()
         if u < 0.3:
@@ -677,7 +712,7 @@ def run(ctx):
                     'coq/JaSpec.v is the formal reading of the property text (schemata per symbol, label function)']
     return ctx.finish(
         level='proof',
-        rule='binary: every ordered pair of the 415 categories of targets.ja, the pairs of seen_rules.ja plus random pairs of its 878 categories '
+        rule='binary: every ordered pair of the 415 categories of targets.ja, pairs of the categories those pairs produce (one round of rule application) with the inventory, the pairs of seen_rules.ja plus random pairs of its 878 categories '
              '(also through the seen-rule gate with small sets), enumerated categories of <= 3 atoms over S/NP x triples with 0-3 variable values '
              '(pairs drawn so that the argument has the skeleton the functor asks for), and random instances of each of the ten pattern pairs '
              '(modifier and non-modifier, outer slashes drawn independently), plus mixed-feature-system pairs for error agreement; '
